@@ -17,7 +17,8 @@ Record bstate := { s_charge : Q; s_power : Q }.
 (* operations on a constructed battery; n1, n2 = what np.random.normal returns at the two call sites *)
 Inductive bop :=
 | Charge (pilot V T n1 n2 : Q)
-| Reset (x : option Q).
+| Reset (x : option Q)
+| Roundtrip.            (* obj = cls.from_json(obj.to_json()): hand-modelled as the identity on the object's state *)
 
 Record bres := { r_err : option string; r_rate : Q; r_state : bstate }.
 
@@ -76,6 +77,7 @@ Definition apply_op (b : battery) (st : bstate) (o : bop) : bres :=
   match o with
   | Charge pilot V T n1 n2 => charge_call b st pilot V T n1 n2
   | Reset x => reset_call b st x
+  | Roundtrip => {| r_err := None; r_rate := 0; r_state := st |}
   end.
 
 (* Q arithmetic does not reduce fractions; the state is put in lowest terms between operations
